@@ -4,6 +4,7 @@ E1: every 2-leaf tree over all 64x64 posting-list alignments of U(6) (and
 weighting models x block sizes 1..3 x segment layouts x deletion sets, plus
 filter/mask/collapse/terms variants.  Oracle: the exhaustive ranking on the
 same searcher."""
+import itertools
 import traceback
 
 from mc import core, corpus, qast
@@ -229,8 +230,94 @@ def culprit(s, ast, k, variant):
             return culprit(s, c, k, variant)
     return ast
 
+# ---------------------------------------------------------------------------
+# positional queries: every assignment of token sequences to 3 (4) documents
+
+SPAN_SEQS = ["x y", "x y x y", "x y pad pad pad", "x y x y x y pad", "pad x z y", "y x z",
+             "x y z pad pad pad pad pad", "z"]
+
+
+def span_queries():
+    from whoosh import query as Q
+    from whoosh.query import spans as SP
+    x, y, z = Q.Term("p", u"x"), Q.Term("p", u"y"), Q.Term("p", u"z")
+    return [("phrase", Q.Phrase("p", [u"x", u"y"])),
+            ("phrase_slop2", Q.Phrase("p", [u"x", u"y"], slop=2)),
+            ("or_phrase_term", Q.Or([Q.Phrase("p", [u"x", u"y"]), z])),
+            ("and_phrase_term", Q.And([Q.Phrase("p", [u"x", u"y"]), z])),
+            ("andmaybe_term_phrase", Q.AndMaybe(z, Q.Phrase("p", [u"x", u"y"]))),
+            ("spannear", SP.SpanNear(x, y, slop=2, ordered=False)),
+            ("spannear2", SP.SpanNear2([x, y], slop=1)),
+            ("spanfirst", SP.SpanFirst(x)),
+            ("spanor", SP.SpanOr([x, z])),
+            ("spannot", SP.SpanNot(x, z)),
+            ("spanbefore", SP.SpanBefore(x, z)),
+            ("spancontains", SP.SpanContains(SP.SpanNear(x, z, slop=3), y))]
+
+
+def span_task(t):
+    seed, D, nsl, sl, wnames = t
+    acc = core.Acc()
+    # (the collector only raises its bar once a full heap has been improved
+    # on, and hands it to replace() at the start of the next segment or one
+    # bar-move late: 4 documents and a 2+2 split are the smallest shape that
+    # reaches replace(q>0) with a better document still ahead)
+    layouts = [{"segs": [D], "blocklimit": 1}, {"segs": [D], "blocklimit": 2}, {"segs": [1, D - 1], "blocklimit": 1},
+               {"segs": [2, D - 2], "blocklimit": 1}]
+    docsets = itertools.product(range(len(SPAN_SEQS)), repeat=D)
+    queries = span_queries()
+    for i, assign in enumerate(docsets):
+        if i % nsl != sl:
+            continue
+        rot = (seed + i) % len(SPAN_SEQS)
+        docs = [{"key": "k%d" % j, "live": True, "s": [], "w": [], "p": SPAN_SEQS[(a + rot) % len(SPAN_SEQS)].split(),
+                 "n": None, "d": None, "b": None} for j, a in enumerate(assign)]
+        for layout in layouts:
+            ix, _ = corpus.build_index(docs, layout)
+            try:
+                for wname in wnames:
+                    with ix.searcher(weighting=weighting(wname)) as s:
+                        for qname, q in queries:
+                            acc.count("span_queries")
+                            engaged = False
+                            for k in range(1, D):
+                                acc.count("evaluations")
+                                try:
+                                    full = list(s.search(q, limit=None).top_n)
+                                    lim, sk, rp = full_and_limited(s, q, k, {})
+                                except Exception as e:
+                                    tb = traceback.extract_tb(e.__traceback__)
+                                    fr = [f for f in tb if "/whoosh/" in f.filename] or list(tb)
+                                    where = "%s:%s" % (fr[-1].filename.split("/")[-1], fr[-1].name)
+                                    acc.violation("span:%s|%s|exc:%s@%s" % (qname, wname, type(e).__name__, where),
+                                                  {"kind": "span", "seed": seed, "docs": [d["p"] for d in docs],
+                                                   "layout": layout, "weighting": wname, "query": qname, "k": k},
+                                                  "%r raised %r at %s" % (q, e, where))
+                                    continue
+                                if sk or rp > 1:
+                                    engaged = True
+                                res = compare(full, lim, k)
+                                if res is not None:
+                                    acc.violation("span:%s|%s|%s" % (qname, wname, res.split(":")[0]),
+                                                  {"kind": "span", "seed": seed, "docs": [d["p"] for d in docs],
+                                                   "layout": layout, "weighting": wname, "query": qname, "k": k},
+                                                  "%r over p-fields %r (%r) weighting=%s limit=%d got %r, exhaustive %r"
+                                                  % (q, [" ".join(d["p"]) for d in docs], layout, wname, k, lim, full))
+                            if engaged:
+                                acc.count("distinct_nontrivial")
+                                acc.count("span_cases_engaging_quality")
+            finally:
+                corpus.destroy_index(ix)
+    return acc.result()
+
 
 def task(t):
+    if t[0] == "span":
+        return span_task(t[1:])
+    return _task(t)
+
+
+def _task(t):
     seed, layout, wname, family, variant, nsl, sl = t
     acc = core.Acc()
     docs = corpus.universe_docs(D, seed)
@@ -339,6 +426,14 @@ def run(ctx):
             for v in ("terms", "filter", "mask", "collapse", "noopt"):
                 for fam in ("two_red", "special", "boost"):
                     tasks.append((seed, lay, "bm25", fam, v, 1, 0))
+    # positional queries (Phrase and the span family): every assignment of 8
+    # token sequences to 3 (thorough: 4) documents
+    if ctx.tier == "quick":
+        for sl in range(16):
+            tasks.append(("span", seed, 4, 16, sl, ("bm25", "freq")))
+    else:
+        for sl in range(128):
+            tasks.append(("span", seed, 5, 128, sl, ("bm25", "tfidf", "freq")))
     ctx.extra["index_variants"] = len(lays)
     ctx.extra["weightings"] = WEIGHTINGS
     ctx.rule = ("for each (index variant, weighting, query tree, variant): search(limit=k), k=1..5, "
@@ -346,7 +441,10 @@ def run(ctx):
                 "binary operator over all 64x64 posting-list alignments of U(6), 3-leaf/nested/boosted/"
                 "special-leaf trees over 12 representative alignments; a query is counted non-trivial "
                 "when block skipping or matcher replacement actually engaged for some k "
-                "(skipped_times>0 or replaced_times>1); enumerated without repetition")
+                "(skipped_times>0 or replaced_times>1); enumerated without repetition; plus 12 positional queries "
+                "(Phrase, slop, Phrase inside Or/And/AndMaybe, SpanNear/Near2/First/Or/Not/Before/Contains) over every "
+                "assignment of 8 token sequences (differing in phrase frequency and field length) to 4 (thorough 5) "
+                "documents x block size 1/2 x segment splits [D], [1,D-1], [2,D-2], k < D")
     ctx.assumptions = ["scores compared with relative tolerance 1e-9; order compared exactly except inside "
                        "groups whose exhaustive scores differ by less than the tolerance",
                        "the exhaustive ranking (limit=None) is itself decided by C09/C01"]
@@ -358,6 +456,16 @@ def run(ctx):
 
 def replay(case):
     core.setup_process(case.get("seed", 0))
+    if case.get("kind") == "span":
+        docs = [{"key": "k%d" % j, "live": True, "s": [], "w": [], "p": p, "n": None, "d": None, "b": None}
+                for j, p in enumerate(case["docs"])]
+        ix, _ = corpus.build_index(docs, case["layout"])
+        q = dict(span_queries())[case["query"]]
+        with ix.searcher(weighting=weighting(case["weighting"])) as s:
+            full = list(s.search(q, limit=None).top_n)
+            lim, sk, rp = full_and_limited(s, q, case["k"], {})
+        res = compare(full, lim, case["k"])
+        return {"ok": res is None, "kind": res, "query": repr(q), "what": "limited %r exhaustive %r" % (lim, full)}
     docs = corpus.universe_docs(D, case.get("seed", 0))
     ix, docs = corpus.build_index(docs, case["layout"])
     with ix.searcher(weighting=weighting(case["weighting"])) as s:
